@@ -156,7 +156,8 @@ class Gen:
             return {"op": name, "members": self.members(), "idx": idx, "attr": enc_attrs_req(self.attrs())}
         if name == "add_edges_from":
             fmt = r.choice([1, 1, 2, 3, 4, 5])
-            return {"op": name, "fmt": fmt, "items": self.edge_items(fmt, 0, 4), "attr": enc_attrs_req(self.attrs(0.3))}
+            return {"op": name, "fmt": fmt, "items": self.edge_items(fmt, 0, 4), "attr": enc_attrs_req(self.attrs(0.3)),
+                    "container": "iter" if b(0.12) else None}
         if name == "add_node_to_edge":
             return {"op": name, "e": enc_id(self.eid()), "n": enc_id(self.node()), "direction": self.direction()}
         if name == "remove_edge":
@@ -261,7 +262,30 @@ def _members(m):
     return [t, h] if m.get("as") == "list" else (t, h)
 
 
-def _ebunch(fmt, items):
+def _iter_members(ms):
+    """tail and head handed over as one-shot iterators (the library may look at them only once)"""
+    if isinstance(ms, (list, tuple)) and len(ms) == 2 and isinstance(ms[0], list) and isinstance(ms[1], list):
+        return type(ms)((iter(ms[0]), iter(ms[1])))
+    return ms
+
+
+def _ebunch(fmt, items, container=None):
+    if container == "iter":
+        out = []
+        d = {}
+        for it in items:
+            ms = _iter_members(_members(it["members"]))
+            if fmt == 5:
+                d[dec_id(it["idx"])] = ms
+            elif fmt == 1:
+                out.append(ms)
+            elif fmt == 2:
+                out.append((ms, dec_id(it["idx"])))
+            elif fmt == 3:
+                out.append((ms, _attrs(it.get("attr", []))))
+            else:
+                out.append((ms, dec_id(it["idx"]), _attrs(it.get("attr", []))))
+        return d if fmt == 5 else out
     if fmt == 5:
         # the caller's containers may be sets, and the same set object may appear more than once (two edges with the
         # same tail, or tail and head given as one set): the network must copy what it is given
@@ -333,7 +357,7 @@ def call(box, op):
             op["idx"] = "$auto"                                # idx=None *is* the automatic id
         return H.add_edge(_members(op["members"]), **kw, **_attrs(op["attr"]))
     if name == "add_edges_from":
-        return H.add_edges_from(_ebunch(op["fmt"], op["items"]), **_attrs(op["attr"]))
+        return H.add_edges_from(_ebunch(op["fmt"], op["items"], op.get("container")), **_attrs(op["attr"]))
     if name == "add_node_to_edge":
         return H.add_node_to_edge(dec_id(op["e"]), dec_id(op["n"]), op["direction"])
     if name == "remove_edge":
@@ -459,7 +483,7 @@ def snapshot(box, out="ok"):
 
 
 def to_request(op):
-    r = copy.deepcopy({k: v for k, v in op.items()})
+    r = copy.deepcopy({k: v for k, v in op.items() if k != "container"})
     if isinstance(r.get("members"), dict):
         r["members"].pop("as", None)
     for it in r.get("items", []) or []:
